@@ -552,6 +552,14 @@ func (e *Env) call(n *SNode) SV {
 			return svTerm(B.False())
 		}
 		return svTerm(B.Eq(a.V.L[0], x.typeID(ct)))
+	case "asptr":
+		// asptr(iface, "*pkg.T"): the interface's data word as a pointer of that type
+		a := e.eval(n.Args[0])
+		ct, ok := x.W.typeByShortName(n.Args[1].Name)
+		if !ok {
+			e.fail("unknown type %q in asptr", n.Args[1].Name)
+		}
+		return svValue(Value{T: ct, L: []*Term{a.V.L[1]}})
 	case "typeid":
 		id, ok := x.typeIDByShortName(n.Args[0].Name)
 		if !ok {
